@@ -358,6 +358,16 @@ def r2_filter(ctx):
                     v = v[2][0]
                 if v[0] == 'call' and v[1].endswith('Iterator::filter') and v[2] == filt[0][2] and chain and chain[0] == 'collect':
                     form = 'filter'
+                # returned = a fresh list extended with cloned(filter(candidates.iter(), body))
+                ext = [e for e in o.events if e[0] == 'call' and 'Extend' in e[1] and e[1].endswith('::extend')]
+                if form is None and len(ext) == 1 and o.value == ('hv', ext[0][3]):
+                    v = ext[0][2][1]
+                    while v[0] == 'call' and v[1].split('::')[-1] in ('cloned', 'copied') and len(v[2]) == 1:
+                        v = v[2][0]
+                    pre = dict(ext[0][6]).get(0) if len(ext[0]) > 6 else None
+                    fresh = pre is not None and pre[0] == 'call' and pre[1].endswith('::new') and not pre[2]
+                    if v[0] == 'call' and v[1].endswith('Iterator::filter') and v[2] == filt[0][2] and fresh:
+                        form = 'filter'
             if form:
                 tables.append((form,) + filter_table(ctx, name, clo[0][1], snaps))
         if extra or not form:
